@@ -251,11 +251,12 @@ def snap(x, depth=0):
     if depth > 8:
         return ["deep"]
     if isinstance(x, pd.DataFrame):
-        return ["df", [repr(c) for c in x.columns], [repr(i) for i in x.index], [str(t) for t in x.dtypes],
+        return ["df", [repr(c) for c in x.columns], [repr(i) for i in x.index], [_dtype_detail(t) for t in x.dtypes], str(x.index.dtype),
+                str(x.columns.dtype),
                 [[_cell(v) for v in row] for row in x.to_numpy(dtype=object).tolist()], repr(x.index.names), repr(x.columns.names),
                 repr(sorted(x.attrs.items(), key=repr))]
     if isinstance(x, pd.Series):
-        return ["series", str(x.dtype), repr(x.name), [repr(i) for i in x.index], [_cell(v) for v in x.tolist()], repr(x.index.name),
+        return ["series", _dtype_detail(x.dtype), str(x.index.dtype), repr(x.name), [repr(i) for i in x.index], [_cell(v) for v in x.tolist()], repr(x.index.name),
                 repr(sorted(x.attrs.items(), key=repr))]
     if isinstance(x, np.ndarray):
         if x.dtype == object:
@@ -283,6 +284,13 @@ def snap(x, depth=0):
     # option dictionaries": their private bookkeeping may change (a correct cache is legal).  What they do to later
     # results is the history oracle's business, and the caller-owned containers they hold are snapshotted separately.
     return ["opaque", type(x).__name__]
+
+
+def _dtype_detail(t):
+    """str(dtype) plus what str() hides: a categorical's categories (in order) and its ordered flag."""
+    if isinstance(t, pd.CategoricalDtype):
+        return ["category", [repr(c) for c in t.categories], bool(t.ordered), str(t.categories.dtype)]
+    return str(t)
 
 
 def _cell(v):
